@@ -117,6 +117,53 @@ def check_outside(case, ctx):
                             % (src, res.value, ref.value, case["vals"]), detail=label)
 
 
+def undefined_name_cases(tier):
+    """Bare names that denote nothing in the language - above all the ones that LOOK like the beginning of a
+    whitelisted type name ('s', 'strin', 'uint', 'ne': what is left of 'r.s' or 'string(..)' after a typo)."""
+    from flow.record.whitelist import WHITELIST
+
+    roots = sorted({w.split(".")[0] for w in WHITELIST})
+    defined = set(roots) | {"r", "Type", "True", "False", "None", "str", "repr", "any", "all", "fields", "lower", "upper",
+                            "names", "name", "get_type", "has_field", "field_regex", "field_equals", "field_contains"}
+    import builtins
+
+    defined |= set(dir(builtins))  # (the compiled engine is Python: 'bool == 1' means what it means in Python)
+    names = []
+    for root in roots:
+        for k in range(1, len(root)):
+            if root[:k] not in defined and root[:k] not in names:
+                names.append(root[:k])
+        for extra in (root + "x", root + "_", root.upper(), root.capitalize()):
+            if extra not in defined and extra not in names:
+                names.append(extra)
+    names += [n for n in ["foo", "x", "rr", "record_", "typ", "Typ", "Types", "nets"] if n not in defined]
+    forms = ["{N} == 'x'", "{N} != 1", "r.s == {N}", "{N} in ['x']", "'x' in {N}", "lower({N}) == 'x'", "{N}.a == 1",
+             "not {N}", "{N} or r.n == 1", "r.n == 0 and {N} == 1", "any(q == {N} for q in [1])", "{N}('x') == 'x'", "{N}"]
+    return [{"name": n, "src": f.format(N=n)} for n in names for f in forms]
+
+
+def check_undefined_name(case, ctx):
+    rec = selgen.build_record(selgen.DEFAULT_VALUES) if hasattr(selgen, "DEFAULT_VALUES") else None
+    if rec is None:
+        from flow.record import RecordDescriptor
+
+        rec = RecordDescriptor("c07/u", [("string", "s"), ("varint", "n")])("x", 0)
+    src = case["src"]
+    ctx.nontriv()
+    ctx.cls("undefined-name:len%d" % min(len(case["name"]), 4))
+    for ename, cls in engines():
+        sel = impl(cls, src)
+        if not sel.ok:
+            ctx.cls("%s:rejected-at-compile" % ename)
+            continue
+        res = impl(sel.value.match, rec)
+        if not res.ok:
+            ctx.cls("%s:rejected" % ename)
+            continue
+        raise Violation("%s/undefined-name-evaluated" % ename, "%s -> %r although %r names nothing in the selector language "
+                        "(Python: NameError)" % (src, res.value, case["name"]))
+
+
 def documented_cases(depth):
     return st.fixed_dictionaries({"expr": selgen.expressions(depth), "vals": selgen.record_values()})
 
@@ -130,4 +177,5 @@ def parts(tier):
         Part("documented-depth3", check_documented, strategy=documented_cases(3), examples=(1500, 15000)),
         Part("documented-deep", check_documented, strategy=documented_cases(5), examples=(500, 6000)),
         Part("outside-language", check_outside, strategy=outside_cases(), examples=(400, 3000)),
+        Part("undefined-names", check_undefined_name, cases=undefined_name_cases, exhaustive=True),
     ]
